@@ -346,6 +346,10 @@ func c08Mode(judge cliJudge, prop string) Mode {
 			if err != nil {
 				return err
 			}
+			var cc c08ClientCase
+			if json.Unmarshal(b, &cc) == nil && cc.Family == "client-establish" {
+				return runC08Client(e, &cc)
+			}
 			var wrap struct {
 				Case *cliCase `json:"case"`
 			}
@@ -378,6 +382,18 @@ func c08Mode(judge cliJudge, prop string) Mode {
 			}
 		}
 		e.Rep.Extra["scripts_run"] = len(all)
+		if prop == "c08" {
+			// the same statement one level up: the high-level Client against scripted servers
+			var cwg sync.WaitGroup
+			for _, cc := range c08ClientCases() {
+				cwg.Add(1)
+				go func(cc *c08ClientCase) {
+					defer cwg.Done()
+					_ = runC08Client(e, cc)
+				}(cc)
+			}
+			cwg.Wait()
+		}
 		return runCliCases(e, all, prop+"-corr", judge)
 	}
 }
